@@ -168,12 +168,22 @@ func RunHistory(c HCase) (res Result) {
 				h.Reset()
 				pos = 0
 			case "Write":
+				if op.Expect == -2 { // outside the documented use (finalised sponge): taken, not judged
+					h.Write(stream[pos : pos+op.K])
+					returned = nil
+					continue
+				}
 				n, err := h.Write(stream[pos : pos+op.K])
 				if n != op.K || err != nil {
 					res.Violations = append(res.Violations, Violation{"C13", "WriteReturn", fmt.Sprintf("%s: Write(%d bytes) = (%d, %v)", a.Name, op.K, n, err)})
 				}
 				pos += op.K
 			case "SumHash":
+				if op.Expect == -2 { // a second SumHash on a finalised sponge: taken, not judged
+					h.SumHash()
+					returned = nil
+					continue
+				}
 				got := h.SumHash()
 				res.Evals++
 				returned = append(returned, kept{got, a.Ref(stream[:op.Expect]), i})
